@@ -555,6 +555,36 @@ class Func:
                             dq.append(int(e[2:-1]))
         return res
 
+    def copy_chain(self, l):
+        """locals that `l` is a plain copy/move/reborrow of (no arithmetic, no calls); includes l.
+        Stops at locals with several definitions (loop-carried variables), which are included."""
+        out = set()
+        dq = deque([l])
+        while dq:
+            x = dq.popleft()
+            if x in out:
+                continue
+            out.add(x)
+            ds = self.defs(x)
+            if len(ds) != 1 or ds[0]["kind"] != "assign":
+                continue
+            rv = ds[0]["rv"]
+            if rv[0] == "use":
+                pl = op_place(rv[1])
+                if pl and all(e == "*" for e in pl[1:]):
+                    dq.append(pl[0])
+            elif rv[0] == "ref":
+                pl = rv[2]
+                if all(e == "*" for e in pl[1:]):
+                    dq.append(pl[0])
+        return out
+
+    def operand_is_copy_of(self, op, locals_):
+        pl = op_place(op)
+        if not pl or any(e != "*" for e in pl[1:]):
+            return False
+        return bool(self.copy_chain(pl[0]) & set(locals_))
+
     def slice_of_operand(self, op, **kw):
         pl = op_place(op)
         if pl is None:
